@@ -397,25 +397,7 @@ func r02_4(c *Ctx) {
 	// every write is dominated by millis > 0
 	gAll := len(wcs) > 0
 	for _, wc := range wcs {
-		g := false
-		for _, ifi := range ifsIn(fn) {
-			op, k, succ, ok := cmpConstEdge(ifi, func(v ssa.Value) bool { return v == ssa.Value(ms) })
-			if !ok || k != 0 {
-				continue
-			}
-			var e int
-			switch op {
-			case token.LEQ:
-				e = 1 - succ
-			case token.GTR:
-				e = succ
-			default:
-				continue
-			}
-			if edgeDominates(ifi.Block(), e, wc.call.Block()) {
-				g = true
-			}
-		}
+		g := intGuard(fn, wc.call.Block(), func(v ssa.Value) bool { return v == ssa.Value(ms) }, negInf, 1, posInf)
 		if !g {
 			gAll = false
 		}
